@@ -316,3 +316,73 @@ def run_c18(prop, tier, seed, t0):
             "quick = patterns with 10*W <= 2e5 rounds; thorough = whole grid. A cell = one pattern class with its outcome.")
     return run_and_finish(prop, tier, seed, t0, jobs, rule, key="patterns",
                           assumptions=["ledger counting mode counts exactly the align-1 allocations made inside the scope", "finite histories: a trend is judged over 9 windows of W rounds"])
+
+
+# ----------------------------------------------------------------------------------- E2
+
+
+def conc_native(buildname, seed, nshards, progs, reps, label, kind="native", env=None, extra=None):
+    build(buildname, ["conc"])
+    exe = binpath(buildname, "conc")
+    jobs = []
+    for s in range(nshards):
+        argv = [exe, "stress", "--seed", str(seed), "--shard", str(s), "--nshards", str(nshards), "--progs", str(progs), "--reps", str(reps)] + (extra or [])
+        jobs.append(Job(f"{label}:{s}", argv, env=env, kind=kind, build=buildname, crash="violation", timeout=2400))
+    return jobs
+
+
+def conc_miri(seed, njobs, progs, seeds, label, cfg=True, leaks=True, extra_flags=""):
+    args = [["miri", "--seed", str(seed), "--shard", str(k), "--nshards", str(njobs), "--progs", str(progs)] for k in range(njobs)]
+    flags = ("" if leaks else "-Zmiri-ignore-leaks ") + extra_flags
+    js = miri_jobs("conc", args, label, seeds=seeds, cfg=cfg, extra_flags=flags.strip(), timeout=3000)
+    for j in js:
+        j.crash = "violation"
+    return js
+
+
+CONC_RULE = ("programs = a shared-storage setup (unpromoted Vec-backed Bytes cloned through one &Bytes, promoted, Vec-with-spare shared, frozen BytesMut, owner whose Drop writes its buffer, BytesMut halves, frozen head + BytesMut tail; with or without a handle lent by the main thread) "
+             "x 2-3 threads x 1-4 ops from {clone via &Bytes, clone own, read, slice, drop, try_into_mut, into Vec, into BytesMut, truncate, advance, reserve, try_reclaim, freeze, BytesMut into Vec}; every thread checks bytes and addresses, exclusive owners overwrite everything they own and keep it until join; "
+             "post-join trace check: at most one zero-copy exclusive owner, exclusive regions pairwise disjoint, ledger balance 0 and no ledger violation. The crate's H1 hook logs (thread, point) with Relaxed atomics and injects seeded spins/yields between the crate's atomic steps. "
+             "A cell = a distinct program, or a distinct (program, ordered hook-event sequence) interleaving signature.")
+
+TSAN_ENV = {"TSAN_OPTIONS": "halt_on_error=0:report_signal_unsafe=0:history_size=4"}
+
+
+@plan("C05")
+def run_c05(prop, tier, seed, t0):
+    quick = tier != "thorough"
+    n = vlib.JOBS
+    progs, reps = (40, 150) if quick else (400, 1500)
+    jobs = conc_native("rel", seed, n, progs, reps, "stress-rel")
+    jobs += conc_native("dbg", seed + 1, n, progs // 2, reps, "stress-dbg")
+    jobs += conc_miri(seed, 4 if quick else 12, 14 if quick else 40, "0..12" if quick else "0..64", "miri")
+    agg = Agg(prop)
+    for j in run_jobs(jobs):
+        agg.absorb(j)
+    extra = {"interleaving_signatures": agg.counters.get("distinct_signatures", 0), "executions_with_lost_promotion_race": agg.counters.get("cas_lost_executions", 0),
+             "zero_copy_exclusive_winners": agg.counters.get("zero_copy_winners", 0)}
+    if agg.counters.get("cas_lost_executions", 0) == 0:
+        agg.inconclusive.append("the lost-promotion-race path was never observed in this run")
+    return finish(prop, tier, seed, agg, t0, "exploration", CONC_RULE, extra=extra, min_eval_key="executions",
+                  assumptions=["sampled schedules only (OS scheduler + injected delays natively, Miri's randomised scheduler with weak-memory emulation per seed)", "thread spawn/barrier/join are the only synchronisation added by the harness"])
+
+
+@plan("C06")
+def run_c06(prop, tier, seed, t0):
+    quick = tier != "thorough"
+    n = vlib.JOBS
+    jobs = conc_miri(seed, 4 if quick else 12, 14 if quick else 40, "0..16" if quick else "0..96", "miri-hook", leaks=False)
+    jobs += conc_miri(seed + 5, 2 if quick else 8, 12 if quick else 40, "0..12" if quick else "0..64", "miri-nohook", cfg=False, leaks=False)
+    jobs += conc_miri(seed + 9, 2 if quick else 6, 12 if quick else 40, "0..8" if quick else "0..48", "miri-preempt", leaks=False, extra_flags="-Zmiri-preemption-rate=0.1 -Zmiri-compare-exchange-weak-failure-rate=0.3")
+    progs, reps = (40, 120) if quick else (400, 1200)
+    jobs += conc_native("tsan", seed, n, progs, reps, "tsan", kind="tsan", env=TSAN_ENV)
+    jobs += conc_native("tsan-nohook", seed + 3, n // 2, progs, reps, "tsan-nohook", kind="tsan", env=TSAN_ENV)
+    agg = Agg(prop)
+    for j in run_jobs(jobs):
+        agg.absorb(j)
+    rule = (CONC_RULE + " For C06 the deciding oracle is the happens-before race detector of Miri (vector clocks over every byte incl. deallocation, weak-memory emulation, many schedule seeds, with the hook and with the hook compiled out) and of ThreadSanitizer (-Zbuild-std, real threads with hook delays): any data-race report on buffer memory or bookkeeping is a violation. "
+            "Both derive happens-before from the orderings written in the source, so a weakened ordering is reported whenever a racy-shaped execution (a reader dropped, another thread freed or took exclusive ownership) is produced.")
+    extra = {"interleaving_signatures": agg.counters.get("distinct_signatures", 0), "tsan_reports": agg.counters.get("tsan_reports", 0),
+             "racy_shape_executions_lower_bound": agg.counters.get("zero_copy_winners", 0) + agg.counters.get("point5_hits", 0) + agg.counters.get("point15_hits", 0)}
+    return finish(prop, tier, seed, agg, t0, "exploration", rule, extra=extra, min_eval_key="executions",
+                  assumptions=["Miri's and TSan's happens-before models; Miri does not emulate every hardware reordering, TSan does not model fences (the crate uses an Acquire load instead)", "sampled schedules only"])
